@@ -24,6 +24,8 @@ def main():
         if not any(fnmatch.fnmatch(name, pat) for pat in pats):
             continue
         meta = json.load(open(os.path.join(d, 'meta.json')))
+        if meta.get('not_caught_reason'):
+            print(name, 'skipped: recorded as not caught (' + meta['not_caught_reason'] + ')'); continue
         props = meta.get('caught_by') or [meta['property']]
         patch = os.path.join(d, 'patch.diff')
         rc, o = run(['git', '-C', '/repo', 'apply', '--whitespace=nowarn', patch])
